@@ -103,14 +103,39 @@ func (d *Dictionary) Decode(dst [][]byte, src []byte, itemsCount uint64) ([][]by
 	if err != nil {
 		return nil, err
 	}
+	// The input comes from storage: validate the run-length data before expanding it, so that a
+	// corrupted block yields an error instead of a fault or an expansion far beyond itemsCount.
+	if err = validateRLE(d.tmp, itemsCount); err != nil {
+		return nil, err
+	}
 	d.indices = decodeRLE(d.indices, d.tmp)
 	if uint64(len(d.indices)) != itemsCount {
 		return nil, fmt.Errorf("unexpected item counts; got %d; want %d", len(d.indices), itemsCount)
 	}
 	for _, index := range d.indices {
+		if uint64(index) >= uint64(len(d.values)) {
+			return nil, fmt.Errorf("dictionary index %d is out of range; the dictionary has %d values", index, len(d.values))
+		}
 		dst = append(dst, d.values[index])
 	}
 	return dst, nil
+}
+
+// validateRLE checks that src consists of complete (value, count) pairs whose counts add up to
+// itemsCount, which bounds the size of the expansion done by decodeRLE.
+func validateRLE(src []uint32, itemsCount uint64) error {
+	if len(src)%2 != 0 {
+		return fmt.Errorf("invalid RLE data: odd number of elements %d", len(src))
+	}
+	total := uint64(0)
+	for i := 1; i < len(src); i += 2 {
+		// cannot overflow: fewer than 2^31 pairs of at most 2^32-1 each
+		total += uint64(src[i])
+	}
+	if len(src) > 0 && total != itemsCount {
+		return fmt.Errorf("unexpected item counts in RLE data; got %d; want %d", total, itemsCount)
+	}
+	return nil
 }
 
 func (d *Dictionary) decodeBytesBlockWithTail(src []byte, itemsCount uint64) ([][]byte, []byte, error) {
@@ -184,7 +209,7 @@ func decodeRLE(dst []uint32, src []uint32) []uint32 {
 	for i := 0; i < len(src); i += 2 {
 		value := src[i]
 		count := src[i+1]
-		for j := uint32(1); j <= count; j++ {
+		for j := uint32(0); j < count; j++ {
 			dst = append(dst, value)
 		}
 	}
@@ -234,7 +259,9 @@ func newBitPackingDecoder(br *Reader) *bitPackingDecoder {
 	}
 }
 
-func (bpd *bitPackingDecoder) decode(dst []uint32) ([]uint32, error) {
+// decode reads the packed values. payloadBits is the number of bits that follow the 40-bit
+// header in the input; it bounds the number of values a (possibly corrupted) header may announce.
+func (bpd *bitPackingDecoder) decode(dst []uint32, payloadBits uint64) ([]uint32, error) {
 	length, err := bpd.br.ReadBits(32)
 	if err != nil {
 		return nil, err
@@ -246,6 +273,12 @@ func (bpd *bitPackingDecoder) decode(dst []uint32) ([]uint32, error) {
 	bitsWidth, err := bpd.br.ReadBits(8)
 	if err != nil {
 		return nil, err
+	}
+	if bitsWidth == 0 || bitsWidth > 32 {
+		return nil, fmt.Errorf("invalid bit width %d; want 1..32", bitsWidth)
+	}
+	if length > payloadBits/bitsWidth {
+		return nil, fmt.Errorf("cannot read %d values of %d bits from %d bits", length, bitsWidth, payloadBits)
 	}
 	for i := uint64(0); i < length; i++ {
 		value, err := bpd.br.ReadBits(int(bitsWidth))
@@ -271,7 +304,11 @@ func decodeBitPacking(dst []uint32, src []byte) ([]uint32, error) {
 	reader := bytes.NewReader(src)
 	br := NewReader(reader)
 	decoder := newBitPackingDecoder(br)
-	return decoder.decode(dst)
+	payloadBits := uint64(0)
+	if len(src) > 5 {
+		payloadBits = uint64(len(src)-5) * 8
+	}
+	return decoder.decode(dst, payloadBits)
 }
 
 // DecodeDictionaryValues extracts only the dictionary values without decoding indices.
